@@ -60,6 +60,15 @@ def _configs(tier, salts):
                     for L in FAULTS:
                         c2 = dict(cfg, all_letter=L)
                         out.append((c2, {"depth": 0}))
+    # the broad option bank: every evaluation index x three fault kinds (all kinds in thorough)
+    for salt in salts:
+        if salt != 0 and tier == "quick":
+            continue
+        for name, cfg in cfgs.broad_cfgs(salt=salt, probs=("nzr",) if tier == "quick" else ("rosen", "nzr"), budgets=(30,), reg_budgets=(7,)):
+            letters = ["nan1", "1e200", "raise"] if tier == "quick" else FAULTS
+            if "reg" in cfg["broad_flags"]:
+                letters = ["nan"]
+            out.append((cfg, {"depth": 1, "letters": letters}))
     return out
 
 
